@@ -30,6 +30,10 @@ LEX_SIZES = [1 << e for e in range(10, 15)]
 LEX_MARGIN = 50.0
 LEX_ABS = 2.0
 LEX_FLOOR = 0.005  # a run below 5 ms is never "slow", whatever the ratio
+ESC_STEP_FACTOR = 6.0  # four more repetitions may not cost 6 x more (2^n: 16 x) ...
+ESC_STEP_FLOOR = 0.002  # ... once a run takes 2 ms (a 300-character literal: ~0.05 ms)
+ESC_NOISE = 0.00005
+CLEAR_EXCESS = 10.0  # a measurement this far over its limit is not contention
 
 
 # ---------------------------------------------------------------------------
@@ -192,6 +196,72 @@ def eval_lexer_family(name):
     return {"name": name, "status": status, "rows": rows, "why": why}
 
 
+def escape_family_name(desc):
+    kinds, quote, prefix, shape = desc[:4]
+    lit = "char" if quote == "'" else "string"
+    return f"{lit}:{'+'.join(kinds)}:{prefix or 'noprefix'}:{shape}"
+
+
+def eval_escape_family(desc):
+    """n repetitions of an escape (or of two alternating escapes) inside one
+    literal.  Small ladder (8..28 repetitions; a 2^n regex shows here, long
+    before 2^10 characters): t(n) < 2 s, t(n) <= 50 x linear extrapolation from
+    n = 8 (or 5 ms), and t(n) <= 6 x t(n-4) once t(n) > 2 ms.  Medium ladder
+    (64, 256, 1024 repetitions): 50 x linear extrapolation from 64 (or 5 ms)
+    and < 2 s.  Stops at the first slow member.
+    -> (status, why, excess, rows, runs, nontrivial)."""
+    kinds, quote, prefix, shape, sizes = desc
+    rows = []
+    base = {}
+    prev = None
+    runs = nontrivial = 0
+    for n in sizes:
+        text = F.escape_text(kinds, quote, prefix, shape, n)
+        small = n <= F.ESCAPE_SMALL[-1]
+        r = F.lex_time_small(text) if small else F.lex_time(text, repeat=3)
+        if r[0] == "timeout":
+            rows.append([n, len(text), None])
+            return ("slow", f"{n} repetitions ({len(text)} characters): no result within {r[2]} s",
+                    1e9, rows, runs, nontrivial)
+        t, ntok, nerr = r
+        runs += 1
+        nontrivial += 1 if (ntok or nerr) else 0
+        rows.append([n, len(text), round(t, 6)])
+        ladder = "small" if small else "medium"
+        if ladder not in base:
+            base[ladder] = (n, t)
+            prev = None
+        n0, t0 = base[ladder]
+        limits = [("absolute limit", LEX_ABS),
+                  (f"{LEX_MARGIN:g} x linear extrapolation from {n0} repetitions ({t0:.6f} s)",
+                   max(LEX_MARGIN * t0 * n / n0, LEX_FLOOR))]
+        if small and prev is not None:
+            limits.append((f"{ESC_STEP_FACTOR:g} x the time at {n - 4} repetitions ({prev:.6f} s)",
+                           max(ESC_STEP_FACTOR * max(prev, ESC_NOISE), ESC_STEP_FLOOR)))
+        for what, lim in limits:
+            if t >= lim:
+                return ("slow", f"{n} repetitions ({len(text)} characters): {t:.4f} s >= {lim:.4f} s = {what}",
+                        t / lim, rows, runs, nontrivial)
+        prev = t
+    return ("linear", "", 0.0, rows, runs, nontrivial)
+
+
+def _escape_work(task):
+    """-> per family (index, status, why, excess, rows if slow, runs, nontrivial,
+    worst ratio to the linear extrapolation)."""
+    out = []
+    for idx, desc in task:
+        st, why, excess, rows, runs, nontriv = eval_escape_family(desc)
+        worst = 0.0
+        for ladder in (F.ESCAPE_SMALL, F.ESCAPE_MEDIUM):
+            rr = [r for r in rows if r[0] in ladder and r[2]]
+            if len(rr) > 1:
+                worst = max(worst, max(r[2] / rr[0][2] / (r[0] / rr[0][0]) for r in rr[1:]))
+        out.append((idx, st, why, excess, rows if st != "linear" else None, runs, nontriv,
+                    round(worst, 2)))
+    return out
+
+
 def _origin_work(task):
     return [origin_functions(kind, key, sizes3) for kind, key, sizes3 in task]
 
@@ -269,6 +339,8 @@ def plan(tier):
         "lexer_lengths": LEX_SIZES,
         "lexer_margin_x_linear": LEX_MARGIN,
         "lexer_abs_seconds": LEX_ABS,
+        "escape_repetitions": list(F.ESCAPE_SMALL + F.ESCAPE_MEDIUM),
+        "escape_step_factor_per_4_repetitions": ESC_STEP_FACTOR,
     }
     info = {
         "repeatable_constructs": len(F.REPEATABLE),
@@ -361,14 +433,25 @@ def run(tier):
     lex_results = []
     for part in core.pmap(_lex_work, [[n] for n in lex_names], chunksize=1):
         lex_results.extend(part)
-    # a family that looked slow while 16 workers competed is measured again
-    # alone before it counts (DESIGN 2: same rule as for watchdog timeouts)
+    t_ph.append(time.time())
+    esc = F.escape_families(tier)
+    esc_res = [None] * len(esc)
+    for part in core.pmap(_escape_work, core.chunked(list(enumerate(esc)), 24), chunksize=1):
+        for row in part:
+            esc_res[row[0]] = row
+    # a family that looked slow while the workers competed is measured again
+    # alone before it counts (DESIGN 2: same rule as for watchdog timeouts) -
+    # unless it is so far over its limit that contention cannot be the reason
     core.close_pool()
     lex_rerun = []
     for i, r in enumerate(lex_results):
         if r["status"] != "linear":
             lex_rerun.append(r["name"])
             lex_results[i] = eval_lexer_family(r["name"])
+    for i, row in enumerate(esc_res):
+        if row[1] != "linear" and row[3] < CLEAR_EXCESS:
+            lex_rerun.append(escape_family_name(esc[i]))
+            esc_res[i] = _escape_work([(i, esc[i])])[0]
     t_ph.append(time.time())
     hist = {}
     members = accepted = nontrivial = 0
@@ -423,6 +506,34 @@ def run(tier):
         if r["status"] != "linear":
             R.fail(f"lexer:{r['name']}", {"lexer": r["name"]}, {"why": r["why"], "rows": r["rows"]})
 
+    # escape families: one signature per (char|string, escape kind); an
+    # alternation of two kinds is attributed to a kind that is slow on its own
+    esc_hist = {}
+    esc_runs = esc_nontrivial = 0
+    esc_worst = []
+    slow_single = set()
+    for d, row in zip(esc, esc_res):
+        esc_hist[row[1]] = esc_hist.get(row[1], 0) + 1
+        esc_runs += row[5]
+        esc_nontrivial += row[6]
+        esc_worst.append((row[7], escape_family_name(d)))
+        if row[1] != "linear" and len(d[0]) == 1:
+            slow_single.add((d[1], d[0][0]))
+    esc_by_sig = {}
+    for i, (d, row) in enumerate(zip(esc, esc_res)):
+        if row[1] == "linear":
+            continue
+        kinds, quote = d[0], d[1]
+        lit = "char" if quote == "'" else "string"
+        own = [k for k in kinds if (quote, k) in slow_single]
+        sig = f"lexer-escape:{lit}:{own[0] if own else '+'.join(kinds)}"
+        esc_by_sig.setdefault(sig, []).append(escape_family_name(d))
+        R.fail(sig, {"escape_family": [list(kinds), quote, d[2], d[3], list(d[4])],
+                     "text_at_8": F.escape_text(kinds, quote, d[2], d[3], 8)},
+               {"family": escape_family_name(d), "why": row[2],
+                "rows[repetitions,len,seconds]": row[4]})
+    esc_worst.sort(reverse=True)
+
     # ---- vacuity guards ---------------------------------------------------
     n_rep = sum(1 for f in fams if f[0] == "rep")
     n_nest = sum(1 for f in fams if f[0] == "nest")
@@ -431,7 +542,9 @@ def run(tier):
     if (n_rep < 12 or n_nest < 16 or len(pairs) < 256 or len(lex_names) < 20
             or decided < 0.95 * len(results) or len(step_values) < len(results)
             or accepted < 0.8 * full or len(funcs) < 100
-            or lex_runs < 0.9 * len(LEX_SIZES) * len(lex_names)):
+            or lex_runs < 0.9 * len(LEX_SIZES) * len(lex_names)
+            or len(esc) < 1000 or esc_runs < 0.9 * sum(len(d[4]) for d in esc)
+            or esc_nontrivial < 0.9 * esc_runs):
         R.fail("vacuous", {"families": len(results), "decided": decided, "accepted": accepted,
                            "members_planned": full, "distinct_step_values": len(step_values),
                            "functions": len(funcs), "lexer_runs": lex_runs},
@@ -439,12 +552,22 @@ def run(tier):
 
     ratios.sort(reverse=True)
     lex_worst.sort(reverse=True)
-    R.set("states", len(results) + len(lex_results))
-    R.set("transitions", members + lex_runs)
-    R.set("traces_validated_against_impl", accepted + lex_runs)
-    R.set("evaluations", members + lex_runs)
-    R.set("distinct_nontrivial", nontrivial + lex_nontrivial)
-    R.set("families", {"repeat": n_rep, "nest": n_nest, "pair": len(pairs), "lexer": len(lex_names)})
+    R.set("states", len(results) + len(lex_results) + len(esc))
+    R.set("transitions", members + lex_runs + esc_runs)
+    R.set("traces_validated_against_impl", accepted + lex_runs + esc_runs)
+    R.set("evaluations", members + lex_runs + esc_runs)
+    R.set("distinct_nontrivial", nontrivial + lex_nontrivial + esc_nontrivial)
+    R.set("families", {"repeat": n_rep, "nest": n_nest, "pair": len(pairs), "lexer": len(lex_names),
+                       "lexer_escape": len(esc),
+                       "lexer_escape_single_kind": sum(1 for d in esc if len(d[0]) == 1)})
+    R.set("escape_catalogue", {"kinds": list(F.ESCAPE_KINDS), "prefixes": list(F.ESCAPE_PREFIXES),
+                               "shapes": list(F.ESCAPE_SHAPES), "literals": ["char", "string"],
+                               "repetitions_small": list(F.ESCAPE_SMALL),
+                               "repetitions_medium": list(F.ESCAPE_MEDIUM)})
+    R.set("escape_runs", esc_runs)
+    R.set("escape_status_histogram", esc_hist)
+    R.set("escape_slow_by_signature", {k: [len(v), v[:5]] for k, v in sorted(esc_by_sig.items())})
+    R.set("largest_escape_ratio_vs_linear", esc_worst[:10])
     R.set("catalogue", info)
     R.set("accepted_members", accepted)
     R.set("members_planned", full)
@@ -452,7 +575,7 @@ def run(tier):
     R.set("lexer_runs", lex_runs)
     R.set("status_histogram", hist)
     R.set("lexer_status_histogram", lex_hist)
-    R.set("distinct_outcomes", len(hist) + len(lex_hist))
+    R.set("distinct_outcomes", len(hist) + len(lex_hist) + len(esc_hist))
     R.set("distinct_step_values", len(step_values))
     R.set("superlinear_single_constructs", single_sig)
     R.set("superlinear_families_by_signature", {k: [len(v), v[:6]] for k, v in sorted(by_sig.items())})
@@ -463,7 +586,7 @@ def run(tier):
     R.set("productions_reached", len([f for f in funcs if f.startswith("_parse_")]))
     R.set("functions_reached", len(funcs))
     R.set("bounds", bounds)
-    R.set("phase_seconds", dict(zip(("families", "origin_analysis", "lexer"),
+    R.set("phase_seconds", dict(zip(("families", "origin_analysis", "lexer", "lexer_escape"),
                                     (round(b - a, 1) for a, b in zip(t_ph, t_ph[1:])))))
     R.assumptions += [
         "work = number of Python call events inside c_parser.py, c_lexer.py and ast_transforms.py "
@@ -474,6 +597,7 @@ def run(tier):
         "so that first-touch page faults (tens of MB of regex mark stack for a 16 KB unterminated "
         "character constant) are not mistaken for work",
         "a timed lexer run under 5 ms is never counted as slow",
+        "escape families: the step rule (4 more repetitions <= 6 x the time) only applies to runs over 2 ms",
     ]
     samples = []
     for r in core.pick_samples([r for r in results if r["status"] == "linear"], 10):
@@ -494,7 +618,11 @@ def run(tier):
         "linear extrapolation from 2^10 and < 2 s. evaluations = parser runs + lexer sizes timed; "
         "distinct_nontrivial = accepted members of families whose step count strictly grew with the size "
         "parameter (the size really drove the parser) + lexer members that produced at least one token or "
-        "error. Signature of a bad family = origin:<function> if one function's own loop explains the growth, "
+        "error. Escape families: every escape kind (and every unordered pair of kinds, alternating) x char "
+        "constant / string x prefix x shape (terminated = over-long for a char constant, unterminated at "
+        "end of line / of input, bad escape at the end / start / end-unterminated), n = 8..28 repetitions "
+        "(step 4) and 64, 256, 1024: < 2 s, <= 50 x linear extrapolation from the smallest n of the ladder, "
+        "and (small ladder) <= 6 x the time of n-4 once over 2 ms. Signature of a bad family = origin:<function> if one function's own loop explains the growth, "
         "else nest:<X> / pair:<X>+<Y> (a pair is attributed to X when X alone is already super-linear).",
         exhaustive=True,
     )
@@ -509,6 +637,16 @@ def replay(rep):
             print("  n=%s len=%s seconds=%s tokens=%s errors=%s" % tuple(row))
         print("verdict:", r["status"], r["why"])
         return 1 if r["status"] != "linear" else 0
+    if "escape_family" in c:
+        kinds, quote, prefix, shape, sizes = c["escape_family"]
+        desc = (tuple(kinds), quote, prefix, shape, tuple(sizes))
+        st, why, excess, rows, runs, nontriv = eval_escape_family(desc)
+        print("escape family:", escape_family_name(desc))
+        print("member at 8 repetitions:", repr(F.escape_text(desc[0], quote, prefix, shape, 8)))
+        for row in rows:
+            print("  repetitions=%s len=%s seconds=%s" % tuple(row))
+        print("verdict:", st, why)
+        return 1 if st != "linear" else 0
     if "kind" not in c:
         print("nothing to replay for this signature:", rep.get("detail"))
         return 1
